@@ -1277,10 +1277,22 @@ def run(ctx):
             arg = norm_text(c.args[0])
             ok_ = False
             cur = c
+            def _neg(t):
+                # the test is false only when the value is truthy: `not v`, `v is None`, `v == None`, `v in (None, 0)`
+                if isinstance(t, ast.UnaryOp) and isinstance(t.op, ast.Not):
+                    return any(norm_text(y) == arg for y in ast.walk(t.operand))
+                if isinstance(t, ast.Compare) and len(t.ops) == 1 and isinstance(t.ops[0], (ast.Is, ast.Eq)) and norm_text(t.left) == arg \
+                        and isinstance(t.comparators[0], ast.Constant) and t.comparators[0].value in (None, 0):
+                    return True
+                return False
             for a in U.ancestors(c, fpm):
-                if isinstance(a, ast.If) and any(cur is x or any(cur is y for y in ast.walk(x)) for x in a.body) \
-                        and any(norm_text(y) == arg for y in ast.walk(a.test)):
-                    ok_ = True
+                if isinstance(a, ast.If):
+                    in_body = any(cur is x or any(cur is y for y in ast.walk(x)) for x in a.body)
+                    in_else = any(cur is x or any(cur is y for y in ast.walk(x)) for x in a.orelse)
+                    if in_body and any(norm_text(y) == arg for y in ast.walk(a.test)) and not _neg(a.test):
+                        ok_ = True
+                    if in_else and _neg(a.test):
+                        ok_ = True
                 cur = a
             ck.expect(ok_, 'C09-D3', f.qual, 'os.strerror(%s) only under a test of %s' % (arg, arg),
                       'os.strerror(%s) is evaluated for every OSError that reaches the handler: one without an errno (a reset reported by '
